@@ -93,7 +93,8 @@ def run_demo(d, wt):
 def cmd_verify(sid, suite=True):
     d, meta = load(sid)
     wt = "/tmp/wt/verify_%d" % os.getpid()
-    subprocess.run(["git", "-C", "/repo", "worktree", "add", "-q", "--detach", wt, "HEAD"], check=True)
+    # the commit the change was written against (later fix commits may touch the same lines)
+    subprocess.run(["git", "-C", "/repo", "worktree", "add", "-q", "--detach", wt, meta.get("base", "HEAD")], check=True)
     res = {}
     try:
         patch = os.path.join(d, "patch.diff")
